@@ -73,6 +73,11 @@ def _cube(case):
     for (i, j) in case.get("nans", []):
         vals[i, j] = np.nan
     labels = _axis_labels(case)
+    if case.get("vdtype"):
+        # narrow integer cubes (no NaN cells): window sums may exceed the storage dtype's range
+        info = np.iinfo(case["vdtype"])
+        vals = np.array(case["values"], dtype="float64").reshape(L, 2)
+        vals = (np.abs(vals) * case.get("vscale", 1) % (int(info.max) + 1)).astype(case["vdtype"])
     if case["dim"] == "time":
         da = xr.DataArray(vals, dims=("time", "px"), coords={"time": pd.DatetimeIndex(labels), "px": [10, 20]}, attrs={"nodata": -1, "k": "v"})
     else:
@@ -100,7 +105,10 @@ def sub_iteragg(case):
     obj = da
     if case.get("container") == "dataset":
         # the same cube as the variables a and b = 2a of a Dataset (the aggregation runs once per variable)
-        obj = xr.Dataset({"a": da, "b": da * 2}, attrs=dict(da.attrs))
+        obj = xr.Dataset({"a": da, "b": (da.astype("int64") if da.dtype.kind in "iu" else da) * 2}, attrs=dict(da.attrs))
+    if case.get("container") == "dask":
+        # lazy cube (aggregated dim in one chunk): all windows are collected first and evaluated afterwards, as concat / dask.compute do
+        obj = da.chunk({dim: -1, "px": 1})
     gen = getattr(obj.hdc.iteragg, func)
     desc = "iteragg.%s(n=%r, %s) on axis %s" % (func, n, ", ".join("%s=%r" % kv for kv in kw.items()), fmt(axis, 14))
     if b is None or e is None:
@@ -109,6 +117,11 @@ def sub_iteragg(case):
     with warnings.catch_warnings():
         warnings.simplefilter("ignore")
         items = call(desc, lambda: list(gen(n, **kw)))
+    if case.get("container") == "dask":
+        import dask
+        with dask.config.set(scheduler="synchronous"):
+            items = list(dask.compute(*items))
+        obj = da
     nn = L if n is None else n
     want = model_windows(L, nn, b, e)
     req(len(items) == len(want), "%s yields %d results, the window model says %d (%s)" % (desc, len(items), len(want), want[:6]), "iteragg window count")
@@ -119,7 +132,7 @@ def sub_iteragg(case):
             req(isinstance(it, xr.Dataset) and set(it.data_vars) == {"a", "b"}, "%s on a Dataset yields %s" % (desc, type(it).__name__), "iteragg dataset item")
             twice = it["b"]
             it = it["a"]
-            req(np.allclose(twice.values, 2 * it.values, rtol=1e-12, atol=0, equal_nan=True), "%s: Dataset variable b = 2a gives %s, variable a gives %s" % (
+            req(np.allclose(twice.values.astype("float64"), 2 * it.values.astype("float64"), rtol=1e-12, atol=0, equal_nan=True), "%s: Dataset variable b = 2a gives %s, variable a gives %s" % (
                 desc, fmt(twice.values.ravel()), fmt(it.values.ravel())), "iteragg dataset variables disagree")
         req(a.get("agg_start") == str(labels[j]) and a.get("agg_stop") == str(labels[k]) and a.get("agg_n") == nn,
             "%s: window (%d..%d) carries attrs %s" % (desc, j, k, {x: a.get(x) for x in ("agg_start", "agg_stop", "agg_n")}), "iteragg attrs")
@@ -276,7 +289,8 @@ def gen_case(draw, Lmax):
     return {"axis": axis, "values": vals, "nans": nans, "dim": dim, "func": draw(st.sampled_from(["sum", "mean", "full"])),
             "n": draw(st.one_of(st.none(), st.integers(1, L + 1))), "begin": b, "end": e, "bk": bk, "ek": ek,
             "method": draw(st.sampled_from([None, None, "nearest", "ffill", "bfill"])), "as_str": draw(st.booleans()),
-            "container": draw(st.sampled_from(["dataarray", "dataarray", "dataset"]))}
+            "container": draw(st.sampled_from(["dataarray", "dataarray", "dataset", "dask"])),
+            **({"vdtype": draw(st.sampled_from(["int16", "uint8", "int32"])), "vscale": draw(st.sampled_from([1, 60, 600]))} if draw(st.integers(0, 4)) == 0 else {})}
 
 
 def run(ctx):
